@@ -111,6 +111,19 @@ CHECKS = {
         design_ref='DESIGN.md §2 C09; notes/C09.md',
         note='Trusted: Fraction arithmetic on grid coordinates. Weight sums below 1e-7 but non-zero are outside the generated domain (the code treats them as zero).',
         technique='Hypothesis generated inputs vs. exact-arithmetic oracle + metamorphic relations'),
+    'C18': dict(
+        category='exploration',
+        text=('One merged CG molecule per case (1-3 chains, 3-20 residues, overlapping input resids between chains, gaps, backbone '
+              'breaks, cross-links, backbone distances constructed on the cut-offs x (1 +- 1e-7)) and a contact list drawn from every '
+              'kind (symmetric, one-directional, self, absent residue / chain, merged instead of input resid), passed in memory or '
+              'through a server-format contact-map file, run through GoPipeline.run_system with the keywords the CLI passes. Oracle '
+              'from the statement with own residue graph, BFS and distances: exactly one site per backbone bead, appended after all '
+              'atoms, co-located, identity copied, zero mass/charge, unique type, one virtual_sitesn, one atom type; nonbond_params and '
+              'exclusions exactly for the accepted contact set, sigma = d/2^(1/6), epsilon as requested; ties either way. A second '
+              'part draws molecule names that are prefixes of bead types (found F16).'),
+        design_ref='DESIGN.md §2 C18; notes/C18.md',
+        note='Trusted: the reference contact filter. One molecule per system (GoPipeline always merges first).',
+        technique='Hypothesis generated inputs with threshold construction vs. reference model (two-directional set comparison)'),
 }
 
 NOT_YET = 'check not built yet in this round (planned, see DESIGN.md §2)'
